@@ -30,7 +30,7 @@ def plan(tier, seed):
     q = tier == 'quick'
     # thorough: every operation and handshake role under several independent entropy streams (the number of draws and
     # the rejection-sampling paths depend on the stream), the no-reuse run only once per operation
-    reps = 1 if q else 40
+    reps = 3 if q else 40
     for rep in range(reps):
         for op in sorted(OPS):
             rpt = OPS[op].get('repeat_q' if q else 'repeat_t', 250 if q else 1000)
